@@ -133,6 +133,24 @@ WHAT = {
     'r5-C18-B': 'Number regex: [0-9] tidied to \\d (Unicode digits accepted)',
     'r5-C20-A': 'base converters memoised with an untyped lru_cache (TRUE and 1 share a slot)',
     'r5-C20-B': 'largest serial replaced by (datetime(9999,12,31) - DATE_ZERO).days, one less than Excel\'s',
+    'r6-C01-A': 'one Separator(",") token hoisted out of the loop and appended n-1 times (the builder keys nodes by token object)',
+    'r6-C01-B': '`^` and the unary signs made right-associative by an equal-rank tie break in the pop loop',
+    'r6-C03-A': 'self.references read once at the top of complete() (third independent agent to seed this)',
+    'r6-C03-B': 'bounding-box pre-check before the array-formula subtraction compares row bounds as text',
+    'r6-C04-A': 'class-level memo of resolved parts in Range.process keyed without the host cell',
+    'r6-C04-B': 'fast path for R[..]C[..] offsets looks at the first corner only',
+    'r6-C07-A': 'sparse range assembler keeps and re-uses its blank buffer between calls',
+    'r6-C07-B': 'inverse_references skips names whose cell is a formula cell',
+    'r6-C10-A': 'successor map of the cell cached on the wrapper and handed to simple_cycles(copy off) through a shallow copy',
+    'r6-C10-B': 'one-node components filtered out before the circuit search (self references not reported)',
+    'r6-C11-A': 'outcome of the error scan memoised on the Array instance',
+    'r6-C11-B': 'xfunc looks for errors after the "A" conversion (XlError is a str: turned into 0)',
+    'r6-C14-A': 'complete() remembers workbooks that failed to load and answers #REF! for them without retrying',
+    'r6-C14-B': 'external-link index resolved with a plain lookup: an unknown index keeps the host workbook',
+    'r6-C15-A': 'self.references read once per iteration, before add_book',
+    'r6-C15-B': 'the same carried set of failed workbooks, found independently for C15',
+    'r6-C19-A': '.copy() dropped before the in-place upper-casing of the lookup value',
+    'r6-C19-B': 'exact-match fast path compares the key with the unfiltered candidates (TRUE matches 1)',
 }
 FIRST1 = {
     "C01-A": "exit 2 (unrecognised rewrite)",
@@ -188,6 +206,7 @@ WHY_MISSED = {
     'r3-C08-A': 'idempotence of a graph-building pass (what a second run leaves behind) - a history property of values',
     'r3-C18-A': 'same as r2-C18-A (found independently): typestate of Token.attr',
     'r3-C18-B': 'value-level protocol between the argument counter and the shunting-yard stack',
+    'r6-C07-B': 'value-level graph predicate in inverse_references (which names get an inverse link is decided from graph data; same family as C07-A)',
     'r4-C15-B': 'which key a book is stored under (upper-cased path) is value-level; the eviction itself is the documented behaviour of the handler',
 }
 
@@ -197,7 +216,7 @@ def main():
     for p in sorted(glob.glob(os.path.join(HERE, 'seeded', '*', 'meta.json'))):
         m = json.load(open(p))
         metas[m['id']] = m
-    for rnd in (1, 2, 3, 4, 5):
+    for rnd in (1, 2, 3, 4, 5, 6):
         print('\n**Round %d**\n' % rnd)
         print('| seed | what was changed | first run | now: own check (rule) '
               '| now: other checks |')
